@@ -211,6 +211,64 @@ def check_copy(run, rng, orig, make_copy: Callable[[], Any], label: str, engine:
     return n
 
 
+def _vis_walk(group) -> List[Any]:
+    out = [group]
+    for child in group.child_groups:
+        out.extend(_vis_walk(child))
+    return out
+
+
+def visgroup_tree_ownership(run, group, vmf, other, engine: str, case: Any) -> None:
+    """A visgroup tree copied within its map and into another one: every group of the copy (children included) belongs to
+    the map the copy was made for, has an ID that is reserved there and collides with nothing, the source map's ID set does
+    not change, and the mapping names every group of the tree."""
+    src_nodes = _vis_walk(group)
+    for dest, label in ((None, 'VisGroup.copy()'), (other, 'VisGroup.copy(other map)')):
+        target = vmf if dest is None else other
+        src_ids_before = set(vmf.vis_id)
+        taken = {g.id for top in target.vis_tree for g in _vis_walk(top)}
+        mapping: Dict[int, int] = {}
+        try:
+            cp = group.copy(dest, mapping)
+        except Exception as exc:
+            run.violation(f'{label} raised {type(exc).__name__}: {exc}', case=case, engine=engine, key='visgroup-copy-raises')
+            return
+        nodes = _vis_walk(cp)
+        run.count('visgroup_trees_copied_for_ownership')
+        if len(src_nodes) > 1:
+            run.count('nested_visgroup_trees_copied')
+        if len(nodes) != len(src_nodes) or [g.name for g in nodes] != [g.name for g in src_nodes]:
+            run.violation(f'{label}: the copy has groups {[g.name for g in nodes]}, the source {[g.name for g in src_nodes]}',
+                          case=case, engine=engine, key='visgroup-copy-shape')
+            return
+        wrong = [g.name for g in nodes if g.vmf is not target]
+        if wrong:
+            run.violation(f'{label}: groups {wrong} of the copy do not belong to the map the copy was made for',
+                          witness={'tree': [g.name for g in nodes], 'wrong': wrong}, case=case, engine=engine,
+                          key='visgroup-copy-wrong-owner')
+            return
+        ids = [g.id for g in nodes]
+        if len(set(ids)) != len(ids) or set(ids) & taken:
+            run.violation(f'{label}: the copied groups have IDs {ids}; the destination already uses {sorted(set(ids) & taken)}',
+                          witness={'ids': ids, 'taken': sorted(taken)}, case=case, engine=engine, key='visgroup-copy-id-collision')
+            return
+        unreserved = [i for i in ids if i not in target.vis_id]
+        if unreserved:
+            run.violation(f'{label}: IDs {unreserved} of the copied groups are not reserved in the destination map',
+                          case=case, engine=engine, key='visgroup-copy-id-unreserved')
+            return
+        if dest is not None and set(vmf.vis_id) != src_ids_before:
+            run.violation(f'{label}: copying into another map changed the set of visgroup IDs reserved in the source map: '
+                          f'{sorted(set(vmf.vis_id) ^ src_ids_before)}', case=case, engine=engine,
+                          key='visgroup-copy-touches-source-ids')
+            return
+        want_map = {s_.id: c_.id for s_, c_ in zip(src_nodes, nodes)}
+        if mapping != want_map:
+            run.violation(f'{label}: the mapping handed back is {mapping}, the tree says {want_map}', case=case, engine=engine,
+                          key='visgroup-copy-mapping')
+            return
+
+
 def _field_of(lines: List[str], k: int) -> str:
     if k >= len(lines):
         return 'eof'
@@ -511,6 +569,8 @@ def one_case(run, seed: int, i: int, engine: str = 'copy') -> None:
     for v in vmf.vis_tree[:2]:
         muts += check_copy(run, rng, v, lambda v=v: v.copy(), 'VisGroup.copy', engine, case)
         muts += check_copy(run, rng, v, lambda v=v: v.copy(other, {}), 'VisGroup.copy(other map)', engine, case)
+    for v in vmf.vis_tree[:3]:
+        visgroup_tree_ownership(run, v, vmf, other, engine, case)
     for c in list(vmf.cameras)[:1] + list(vmf.cordons)[:1]:
         muts += check_copy(run, rng, c, lambda c=c: c.copy(), type(c).__name__ + '.copy', engine, case)
     for g in list(vmf.groups.values())[:1]:
@@ -547,4 +607,4 @@ def replay(run, data) -> None:
 
 
 # (kept at the end of the file so that the text above stays the description the check was first built to)
-RULE += ' ' + 'Later additions: every binary operator over every pair of operand kinds (mutable, frozen, tuple, scalar) in both orders plus the unary operators and value-returning methods, results edited in place; copy options (side_mapping law, keep_vis=False, other map), the map every part of a copy belongs to, copies of worldspawn, cross-map Side / EntityGroup copies.'
+RULE += ' ' + 'Later additions: every binary operator over every pair of operand kinds (mutable, frozen, tuple, scalar) in both orders plus the unary operators and value-returning methods, results edited in place; copy options (side_mapping law, keep_vis=False, other map), the map every part of a copy belongs to, copies of worldspawn, cross-map Side / EntityGroup copies. Visgroup trees copied within the map and into another one: every group of the copy belongs to the destination map, its ID is reserved there and collides with nothing, the reserved IDs of the source map are untouched, and the mapping names every group.'
